@@ -767,8 +767,10 @@ def cell_grid(rng):
             members = sorted(reachable(db.nodes, [top]))
             add(f'src-exotic{t}', db.nodes, random_order(rng, db.nodes, set(members), first=top), [top], 1 + t % 2, magic='gic'[t % 3])
     # maximal records: the longest record every encoder freedom allows, and its neighbours
+    state = rng.getstate()              # the grids built after this one keep their own draws
     for tag, nodes, order, roots, size, magic, store in maximal_records(rng, full=False):
         add('src-' + tag, nodes, order, roots, size, off=2, magic=magic, idx=magic != 'g', store=store)
+    rng.setstate(state)
     return out
 
 
@@ -1003,6 +1005,7 @@ def run(ctx):
             check_accept(ctx, case, spec, f'stored-mask{mask}-{magic}')
 
     # maximal records: for every encoder freedom the longest possible cell record (and its neighbours)
+    state_before_maximal = rng.getstate()      # the streams below keep their own draws
     for tag, nodes, order, roots, size, magic, store in maximal_records(rng):
         spec = G.spec_dag(nodes)
         recs = listing(nodes, spec, order)
@@ -1016,6 +1019,7 @@ def run(ctx):
         ctx.count('maximal-record')
         ctx.count('maximal-record-slack:%d' % min(2 + 4 * 34 + 128 + 4 * size - big, 9))
         check_accept(ctx, case, spec, tag, use_lean_encoder=tag.endswith(('all', 'all-p')) and '-b1023-r4' in tag)
+    rng.setstate(state_before_maximal)
 
     # minimal-width boundaries: 255 / 256 / 257 cells; cell data of 255 / 256 bytes
     for n in (255, 256, 257):
@@ -1110,3 +1114,11 @@ def replay(ctx, payload):
         d = bytes.fromhex(inp['boc'])
         ctx.case(('replay', d))
         corr(ctx, d, lib_parse(d), 'replay')
+
+
+# ----------------------------------------------------------------------------- round 10 (st-nfif): SPEC texts of the maximal-records class
+SPEC['manifest']['text'] += (' MAXIMAL RECORDS (sampled, every run): for every encoder freedom that lengthens one cell record (stored hashes none / '
+                             'that cell / all, level mask 0..7, reference width 1..4) the ordinary cell with the largest possible record (1023 data bits, 4 references) '
+                             'and its neighbours one step down in each dimension, as root or under a small parent - in the positive stream and in the grid the '
+                             'failing-input search evaluates after a broken source obligation.')
+SPEC['rule'] += ('; maximal records: masks 0..7 x size 1..4 x stored hashes (all / big cell / none) x (1023|1017|1016 bits, 4|3 refs, one interior) = 672 bags per run')
